@@ -31,3 +31,5 @@ package status
 //@ safety on
 //@ requires s != nil && !held(s.mu)
 //@ ensures [unlocked] !held(s.mu)
+// a reply that was handed out earlier is a snapshot: the cache slot may be repointed, the cached reply itself is never written
+//@ modifies fieldof(s.cachedResp), clock, alloc, lastActiveHosts, lastNodePeers
